@@ -35,8 +35,14 @@ func (r recTT) Write(hash board.ZobristHash, bound Bound, ply, depth int, score 
 func (r recTT) Size() uint64  { return r.inner.Size() }
 func (r recTT) Used() float64 { return r.inner.Used() }
 
+var ttQuiescence bool
+
 func checkSearch(b *board.Board, tt TranspositionTable, depth int, ev symEval, tag string) {
 	ab := AlphaBeta{Eval: Leaf{Eval: ev}}
+	if ttQuiescence {
+		checkSearchQ(b, tt, depth, tag)
+		return
+	}
 	_, score, pv, err := ab.Search(context.Background(), &Context{TT: tt}, b, depth)
 	verifAssert(err == nil, tag+": no error")
 	want := refNegamax(b, depth, ev, nil)
@@ -85,14 +91,21 @@ func harnessTT(tree, maxDepth int, size uint64, k int) {
 	}
 	// the same position searched again with the table kept
 	checkSearch(b, tt, maxDepth, ev, "repeated search")
-	checkLog(ev)
+	if !ttQuiescence {
+		checkLog(ev)
+	}
 	// the position after the best move (successive positions of a game)
 	moves := b.Position().LegalMoves(b.Turn())
 	if len(moves) > 0 {
 		b.PushMove(moves[0])
 		ttLog = nil
-		checkSearch(b, tt, maxDepth, ev, "next position")
-		checkLog(ev)
+		// the next move of a game restarts iterative deepening at depth 1 on the kept table
+		for d := 1; d <= maxDepth; d++ {
+			checkSearch(b, tt, d, ev, "next position")
+		}
+		if !ttQuiescence {
+			checkLog(ev)
+		}
 		b.PopMove()
 	}
 	ttBoard = nil
@@ -107,3 +120,45 @@ func Harness_C11_T3_S128() { harnessTT(3, 2, 4096, 2) }
 func Harness_C11_T4_S128() { harnessTT(4, 3, 4096, 2) }
 func Harness_C11_T5_S2() { harnessTT(5, 2, 64, 2) }
 func Harness_C11_T5_S128() { harnessTT(5, 3, 4096, 2) }
+
+// quiescence leaf search: the reference is a table-free search of the same configuration
+// (its agreement with the definition is C13's subject); the table must not change the score.
+func checkSearchQ(b *board.Board, tt TranspositionTable, depth int, tag string) {
+	ab := AlphaBeta{Eval: Quiescence{Explore: capturesOnly, Eval: Leaf{Eval: eval.Material{}}}}
+	_, score, pv, err := ab.Search(context.Background(), &Context{TT: tt}, b, depth)
+	_, want, _, err2 := ab.Search(context.Background(), &Context{TT: NoTranspositionTable{}}, b, depth)
+	verifAssert(err == nil && err2 == nil, tag+": no error")
+	verifAssert(score == want, tag+": with a table the root score (quiescence leaf search) equals the score without a table")
+	if len(b.Position().LegalMoves(b.Turn())) > 0 && b.Result().Outcome != board.Draw {
+		verifAssert(len(pv) > 0, tag+": with a table the principal variation still begins with a move")
+	}
+}
+
+func harnessTTQuiet(i, maxDepth int, size uint64) {
+	m := quietMenu[i]
+	pos, err := board.NewPosition(m.pieces, 0, 0)
+	if err != nil {
+		panic("bad quiet menu")
+	}
+	b := board.NewBoard(harnessZobrist(), pos, m.turn, m.np, 1)
+	initLeaves(2)
+	ttQuiescence = true
+	tt := recTT{inner: NewTranspositionTable(context.Background(), size)}
+	ttBoard, ttLog = nil, nil
+	verifReach("tt-quiescence")
+	ev := symEval{}
+	// a narrow-window search first (as aspiration / inner nodes do), then full-window searches
+	alpha, beta := symBound("alpha", false), symBound("beta", false)
+	verifAssume(refBetter(toRef(beta), toRef(alpha)))
+	ab := AlphaBeta{Eval: Quiescence{Explore: capturesOnly, Eval: Leaf{Eval: eval.Material{}}}}
+	ab.Search(context.Background(), &Context{Alpha: alpha, Beta: beta, TT: tt}, b, maxDepth)
+	for d := 1; d <= maxDepth; d++ {
+		checkSearch(b, tt, d, ev, "first search")
+	}
+	checkSearch(b, tt, maxDepth, ev, "repeated search")
+	ttQuiescence = false
+}
+
+func Harness_C11_Q0() { harnessTTQuiet(0, 2, 4096) }
+func Harness_C11_Q1() { harnessTTQuiet(1, 2, 4096) }
+func Harness_C11_Q0_S1() { harnessTTQuiet(0, 1, 32) }
